@@ -182,6 +182,10 @@ def rule_blockgate(prog, rep):
                 firstlast.add(which)
     if firstlast == {"next", "next_back"}:
         rep.instance("C09.BLOCKGATE", "can_be_block_string: whitespace-only first or last line -> false")
+    elif not firstlast:
+        # neither test is written in the `lines.next().is_some_and(..)` idiom: the rule cannot tell a
+        # rewrite from a removal, and says so instead of asserting a defect
+        rep.fail("UNDECIDED rule=C09.BLOCKGATE can_be_block_string: the whitespace-only first / last line tests are not in the recognised `split('\\n').next()/next_back().is_some_and(|l| trim(l).is_empty())` form")
     else:
         rep.finding("C09.BLOCKGATE", cb.name, "blank-edge-lines", "can_be_block_string no longer rejects a whitespace-only first/last line (found tests on: %s)" % sorted(firstlast), cb.loc())
     # (c) result is `common_indent == 0`
@@ -200,6 +204,10 @@ def rule_blockgate(prog, rep):
 
     if t.get("k") == "bin" and t["op"] == "==" and is_min_indent(t["a"]) and strip_expr(t["b"]).get("v") == 0:
         rep.instance("C09.BLOCKGATE", "can_be_block_string: result is `common_indent == 0`")
+    elif t.get("k") == "bin" and t["op"] == "==" and strip_expr(t["b"]).get("v") == 0 and strip_expr(t["a"]).get("k") == "call":
+        # `helper(value) == 0`: the indentation is computed elsewhere; judged only if that helper is
+        # the recognised min() pipeline (C09.BLOCKGATE c'), otherwise undecided
+        rep.fail("UNDECIDED rule=C09.BLOCKGATE can_be_block_string: the common indentation is computed by `%s`, not by the recognised min() pipeline" % (callee_path(strip_expr(t["a"])) or "?").split("::")[-1])
     else:
         rep.finding("C09.BLOCKGATE", cb.name, "common-indent", "can_be_block_string no longer requires zero common indentation", cb.loc())
     # (c') which lines take part in the minimum: BlockStringValue() ignores WhiteSpace-only lines
@@ -247,6 +255,10 @@ def rule_blockgate(prog, rep):
     etq = [c for c in prog.consts.values() if c["name"].endswith("serialize_block_string::ESCAPED_TRIPLE_QUOTE")]
     ptq = prog.const(r"^apollo_parser::cst::node_ext::TRIPLE_QUOTE$")
     petq = prog.const(r"^apollo_parser::cst::node_ext::ESCAPED_TRIPLE_QUOTE$")
+    if not tq or not etq:
+        # the constants moved out of serialize_block_string: look for them in the module
+        tq = [c for c in prog.consts.values() if re.search(r"^apollo_compiler::ast::serialize::(\w+::)?TRIPLE_QUOTE$", c["name"])]
+        etq = [c for c in prog.consts.values() if re.search(r"^apollo_compiler::ast::serialize::(\w+::)?ESCAPED_TRIPLE_QUOTE$", c["name"])]
     if len(tq) == 1 and len(etq) == 1 and tq[0]["value"] == ptq["value"] and etq[0]["value"] == petq["value"]:
         rep.instance("C09.BLOCKGATE", "serializer and parser agree on TRIPLE_QUOTE / ESCAPED_TRIPLE_QUOTE (const-evaluated)")
     else:
